@@ -842,7 +842,7 @@ def obligations(tier, prop="C04"):
             for nsub in (2, 3):
                 obs.append(Obligation(f"position-helpers-{r}-{nsub}", run_position_helpers, dict(resname=r, oxygen=ox, nsub=nsub), kind="table", group="position-helpers"))
         for r in ("ASN", "GLN", "HIS"):
-            for pos in ("internal",) if tier == "quick" else POSITIONS:
+            for pos in ("internal", "cterm") if tier == "quick" else POSITIONS:  # a C-terminal amide shares the "O..." / "HO" name prefixes of the terminal carboxyl
                 for outcome in ("undecided", "keep", "flip"):
                     obs.append(Obligation(f"flip-{r}-{pos}-{outcome}", run_flip, dict(resname=r, position=pos, outcome=outcome), kind="lemma", group="flip"))
         for r, steps in seqs:
@@ -853,6 +853,12 @@ def obligations(tier, prop="C04"):
             obs.append(Obligation(f"gating-ff{ff}-pka{pka}-lig{lig}", h_gating, dict(ff=ff, pka=pka, ligand=lig), group="gating", time_cap=1500, max_paths=200000))
         for ff in ("amber",) if tier == "quick" else ("amber", "parse", "charmm"):
             obs.append(Obligation(f"input-atoms-stay-{ff}", h_input_atoms_stay, dict(ff=ff), group="input-atoms", time_cap=1200))
+        # the coordinates WRITTEN are the model's: the --whitespace re-spacer cuts the fixed-column line apart and may not lose a
+        # sign or leading digit of a coordinate that fills its eight columns (C09's writer harness; round 7)
+        from . import c09
+
+        for focus in (["x", "y"], ["y", "z"]):
+            obs.append(Obligation(f"written-coordinates-whitespace-{'+'.join(focus)}", c09.h_whitespace_equiv, dict(focus=focus, rtype="ATOM"), group="written-coordinates", time_cap=1500))
         obs.append(Obligation("census-coordinate-writers", run_census, {}, kind="table", group="census"))
     return obs
 
